@@ -20,6 +20,15 @@ CORPUS = [
      H.el(H.T(["div"]), [H.el(H.T(["kbd", "code"]), [{"t": "text", "v": "b"}]), H.el(H.T(["code"]), [{"t": "text", "v": "c"}])])],
 ]
 
+CORPUS += [
+    # alternatives are not transitive through nested merges; white space between elements that would otherwise merge
+    [H.el(H.T(["div"]), [H.el(H.T(["c"]), [{"t": "text", "v": "x"}])]),
+     H.el(H.T(["div"]), [H.el(H.T(["b", "c"]), [{"t": "text", "v": "y"}]), H.el(H.T(["a", "b"]), [{"t": "text", "v": "z"}])])],
+    [H.el(H.T(["div"]), [H.el(H.T(["c"]), [{"t": "text", "v": "x"}])]),
+     H.el(H.T(["div"]), [H.el(H.T(["b", "c"]), [{"t": "text", "v": "y"}]), H.el(H.T(["b"]), [{"t": "text", "v": "z"}])])],
+    [H.el(H.T(["em"]), [{"t": "text", "v": "a"}]), {"t": "text", "v": " "}, H.el(H.T(["em"]), [{"t": "text", "v": "b"}])],
+    [H.el(H.T(["p"]), [H.el(H.T(["em"]), [{"t": "text", "v": "a"}]), {"t": "text", "v": " \n"}]), H.el(H.T(["p"]), [{"t": "text", "v": "\t"}, H.el(H.T(["em"]), [{"t": "text", "v": "b"}])])],
+]
 
 def observe(forest):
     """run the real collapse; returns (output JSON, problems found by model-free observations)"""
@@ -90,6 +99,90 @@ def model_fails(f):
     return rj != [H.norm(n) for n in m["collapse"]]
 
 
+def alt_api_case(seed, i):
+    """a document that makes the converter build a forest of nested elements which merge through `|` alternatives:
+    every paragraph gets a path of 1-3 elements and every run a path of 0-2 elements over a pool of three tag names
+    (alternatives in any order, :fresh flags); a path is biased towards merging into what will be next to it -- the
+    previous paragraph's path (or a prefix of it), the previous run's wrapper, or, for the first run of a paragraph whose
+    path is a prefix of the previous paragraph's, the next element of that longer path -- by the same first name or
+    by a NON-first alternative.  Every distinct path becomes a style with its own style-map line; some runs hold white
+    space only."""
+    from gen_docx import el
+    rng = random.Random(seed * 1000003 + 700000 + i)
+    pool = rng.sample(["div", "ul", "ol", "li", "section", "span"], 3)
+    p_fresh = rng.choice([0.1, 0.2, 0.3])
+
+    def tag(target):
+        names = rng.sample(pool, rng.choice([1, 1, 2, 2, 3]))
+        if target is not None and rng.random() < 0.75:
+            tn = target[0][0]
+            others = [n for n in pool if n != tn]
+            r = rng.random()
+            if r < 0.45:
+                names = [tn] + rng.sample(others, rng.choice([0, 0, 1]))
+            else:
+                names = rng.sample(others, rng.choice([1, 1, 2]))
+                names.insert(rng.randint(1, len(names)), tn)
+        return (tuple(names), rng.random() < p_fresh)
+
+    paras = []
+    for _ in range(rng.randint(2, 5)):
+        prev = paras[-1] if paras else None
+        if prev is not None and rng.random() < 0.7:
+            k = rng.randint(1, len(prev[0]))
+            ppath = [tag(t) for t in prev[0][:k]] + [tag(None) for _ in range(rng.choice([0, 0, 0, 1]))]
+        else:
+            ppath = [tag(None) for _ in range(rng.randint(1, 3))]
+        runs = []
+        for _ in range(rng.choice([0, 1, 2, 2, 3, 3])):
+            if runs and runs[-1][0]:
+                target = runs[-1][0][0]
+            elif not runs and prev is not None and len(prev[0]) > len(ppath):
+                target = prev[0][len(ppath)]
+            elif not runs and prev is not None and prev[1] and prev[1][-1][0]:
+                target = prev[1][-1][0][0]
+            else:
+                target = None
+            n = rng.choice([0, 1, 1, 1, 2])
+            rpath = ([tag(target)] + [tag(None) for _ in range(n - 1)]) if n else []
+            if rng.random() < 0.2:
+                text = rng.choice([" ", "  ", "\t", " \n"])
+            else:
+                text = chr(0x61 + sum(len(p[1]) for p in paras) % 26) + "abc"[len(runs) % 3]
+            runs.append((rpath, text))
+        paras.append((ppath, runs))
+
+    ids = {}
+    lines = []
+
+    def style(kind, path):
+        key = (kind, tuple(path))
+        if key not in ids:
+            sid = "%s%d" % (kind.upper(), len(ids) + 1)
+            ids[key] = (sid, "Style %s %d" % (kind, len(ids) + 1))
+            spelled = " > ".join("|".join(names) + (":fresh" if fresh else "") for names, fresh in path)
+            lines.append("%s%s => %s" % (kind, ".%s" % sid if rng.random() < 0.5 else "[style-name='%s']" % ids[key][1], spelled))
+        return ids[key][0]
+    body = []
+    for ppath, runs in paras:
+        ch = [el("w:pPr", [], [el("w:pStyle", [("w:val", style("p", ppath))])])]
+        for rpath, text in runs:
+            rch = [el("w:rPr", [], [el("w:rStyle", [("w:val", style("r", rpath))])])] if rpath or rng.random() < 0.3 else []
+            ch.append(el("w:r", [], rch + [el("w:t", [], [text])]))
+        body.append(el("w:p", [], ch))
+    rng.shuffle(lines)
+    styles = [el("w:style", [("w:type", "paragraph" if kind == "p" else "character"), ("w:styleId", sid)], [el("w:name", [("w:val", name)])])
+              for (kind, _), (sid, name) in ids.items()]
+    parts = [{"name": "word/document.xml", "xml": el("w:document", [], [el("w:body", [], body)])},
+             {"name": "word/styles.xml", "xml": el("w:styles", [], styles)}]
+    opts = {"styleMap": "\n".join(lines)}
+    if rng.random() < 0.15:
+        opts["ignoreEmpty"] = False
+    if rng.random() < 0.2:
+        opts["includeDefault"] = False
+    return {"parts": parts, "options": opts, "features": ["alt-paths"], "key": "c04a-%d-%d" % (seed, i)}
+
+
 def run(out, tier, seed, model_ok):
     rng = random.Random(seed * 7919 + 4)
     forests = [(f, "corpus") for f in CORPUS]
@@ -101,6 +194,11 @@ def run(out, tier, seed, model_ok):
     exhaustive_n = len(forests)
     for _ in range(common.deepen(3000 if tier == "quick" else 40000)):
         forests.append((H.random_forest(rng, max_nodes=rng.choice([4, 10, 30, 60])), "random"))
+    # nested merges through `|` alternatives (the order of merging is observable only there), white space between mergeable elements
+    forests += [(f, "alt-neighbourhood") for f in H.alt_neighbourhoods()]
+    for _ in range(common.deepen(1500 if tier == "quick" else 20000)):
+        forests.append((H.random_forest_alts(rng, max_nodes=rng.choice([8, 20, 40])), "random-alts"))
+    alt_cases = [alt_api_case(seed, i) for i in range(common.deepen(150 if tier == "quick" else 2000))]
     # forests the converter really builds: captured from conversions with nested, separated paths
     log = []
     napi = common.deepen(250 if tier == "quick" else 3000)
@@ -112,6 +210,11 @@ def run(out, tier, seed, model_ok):
                 D.run_real(D.build_docx(parts), opts, want_doc=False)
             except Exception:
                 pass
+        for c in alt_cases:
+            try:
+                D.run_real(D.build_docx(c["parts"]), c["options"], want_doc=False)
+            except Exception:
+                pass
     # the same pipeline end to end: the HTML the library returns must be the one the model computes with
     # write (collapse (strip_empty nodes)) — the order of the two passes and what is merged across emptied elements
     pipe_cases = []
@@ -120,6 +223,7 @@ def run(out, tier, seed, model_ok):
                                         sm=dict(hostile=0.05, junk=0.0))
         opts.pop("format", None)
         pipe_cases.append({"parts": parts, "options": opts, "features": sorted(g.used_features), "key": "c04p-%d-%d" % (seed, i)})
+    pipe_cases += alt_cases
     pipe = A.ApiRun(out, "C04", model_ok, lambda r, case: r.get("value"), name="pipeline")
     pipe.run(pipe_cases, nontrivial=lambda c, r: "styleMap" in c["options"])
     api_forests = 0
@@ -147,6 +251,9 @@ def run(out, tier, seed, model_ok):
     out.rule = ("node forests: corpus + exhaustive up to %d nodes over {a,b,a|b,a[k=v]} x fresh x separator + random up to 60 nodes + forests captured from real "
                 "conversions; real mammoth.html.collapse vs the Lean `collapse` (the function characterised by the C04 theorems), plus idempotence / immutability / text "
                 "observations on the real code; non-trivial = at least one merge happened" % (3 if tier == "quick" else 4))
+    out.rule += ("; plus all two-level neighbourhoods [P1[L], P2[c1, c2]] over three names with `|` alternatives in both orders x fresh x four ways for P2 to (not) merge, "
+                 "random forests over 2-4 names per forest with alternatives and white-space-only text nodes between mergeable elements, and conversions of documents whose "
+                 "paragraph/run styles map to paths with alternatives (whole result compared with the model, forests captured)")
     out.extra.update(exhaustive=False, exhaustive_part=exhaustive_n, api_forests=api_forests, random_forests=len(forests) - exhaustive_n - api_forests)
     for f, origin in forests[exhaustive_n:exhaustive_n + 2] + forests[-2:]:
         out.sample({"origin": origin, "forest": f})
